@@ -9,10 +9,13 @@ Bufs == {4, 16}
 Patterns == {"b", "b_plus_half", "ones", "threes", "big"}
 Durs == {0, 3, 10, 24, 64}
 VARIABLE sc
-Init == sc \in [param : Params, b : Bufs, pat : Patterns, d : Durs, paused : BOOLEAN]
+\* dbl: a command of the same kind, with another target and duration, is written in the same window just before
+\* the one under test - it is superseded and must leave no trace (C07: last write wins)
+Init == sc \in [param : Params, b : Bufs, pat : Patterns, d : Durs, paused : BOOLEAN, dbl : BOOLEAN]
 Next == UNCHANGED sc
 Spec == Init /\ [][Next]_sc
 \* (pausing the owner only makes sense for a volume that sits on a sub-track or below it)
-Meaningful == sc.paused => sc.param \in {"track_vol", "sound_vol", "route_vol"}
+Meaningful == /\ sc.paused => sc.param \in {"track_vol", "sound_vol", "route_vol"}
+              /\ sc.dbl => (sc.param \in {"track_vol", "send_vol", "route_vol", "main_vol", "sound_vol"} /\ ~sc.paused /\ sc.pat \in {"b", "threes"})
 Dump == Meaningful => PrintT(<<"BEHAVIOUR", ToJson(<<sc>>)>>)
 =============================================================================
